@@ -4,7 +4,7 @@ import h_doc, h_c13, h_lib, h_squash, h_pos, h_paths, h_titles, h_actions, h_eve
 def doc(prog, tier):
     return h_doc.DocHarness(prog, tier)
 
-DOC_SPEC = {'make': doc, 'time_limit': {'quick': 420, 'thorough': 2400}}
+DOC_SPEC = {'make': doc, 'time_limit': {'quick': 420, 'thorough': 900}}
 
 def doc_lists(prog, tier):
     if tier == 'quick':
@@ -18,9 +18,9 @@ def doc_lists_h(prog, tier):
 def doc_headings(prog, tier):
     return h_doc.DocHarness(prog, tier, budget=6 if tier == 'quick' else 8, max_nest=0, kinds=('Para', 'Header'),
                             name='doc_pipeline_headings', covers=('heading', 'nested-heading', 'wellnested-input', 'non-wellnested-input'))
-LISTS_SPEC = {'make': doc_lists, 'time_limit': {'quick': 420, 'thorough': 2400}}
+LISTS_SPEC = {'make': doc_lists, 'time_limit': {'quick': 420, 'thorough': 900}}
 LISTS_H_SPEC = {'make': doc_lists_h, 'time_limit': {'quick': 420, 'thorough': 600}}
-HEADINGS_SPEC = {'make': doc_headings, 'time_limit': {'quick': 300, 'thorough': 2400}}
+HEADINGS_SPEC = {'make': doc_headings, 'time_limit': {'quick': 300, 'thorough': 600}}
 DOC_ALL = [DOC_SPEC, LISTS_SPEC, LISTS_H_SPEC, HEADINGS_SPEC]
 def _twice(spec):
     """the same harness with the second format switched on (C02); the other properties skip that part"""
@@ -42,28 +42,28 @@ COMMON = [
     'with the shapes the reader can emit (witnessed natively), outputs are the projected GraphBlocks / arena / Tree',
 ]
 
-KERNEL_SPEC = {'make': lambda prog, tier: h_c13.KernelHarness(prog, tier), 'time_limit': {'quick': 300, 'thorough': 1800}}
+KERNEL_SPEC = {'make': lambda prog, tier: h_c13.KernelHarness(prog, tier), 'time_limit': {'quick': 300, 'thorough': 900}}
 LINESTARTS_SPEC = {'make': lambda prog, tier: h_c13.LineStartsHarness(prog, tier), 'time_limit': {'quick': 120, 'thorough': 600}}
 
 def lib(prog, tier):
     return h_lib.LibHarness(prog, tier)
-LIB_SPEC = {'make': lib, 'time_limit': {'quick': 420, 'thorough': 2400}}
+LIB_SPEC = {'make': lib, 'time_limit': {'quick': 420, 'thorough': 1500}}
 LIB_META_SPEC = {'make': lambda prog, tier: h_lib.LibHarness(prog, tier, mode='meta', name='library_front_matter'), 'time_limit': {'quick': 120, 'thorough': 120}}
 
 def squash_graphs(prog, tier):
     return h_squash.SquashHarness(prog, tier, 'graphs')
 def squash_chains(prog, tier):
     return h_squash.SquashHarness(prog, tier, 'chains', name='squash_chains_depth_u8')
-SQUASH_SPECS = [{'make': squash_graphs, 'time_limit': {'quick': 420, 'thorough': 2400}}, {'make': squash_chains, 'time_limit': {'quick': 300, 'thorough': 900}}]
+SQUASH_SPECS = [{'make': squash_graphs, 'time_limit': {'quick': 420, 'thorough': 1500}}, {'make': squash_chains, 'time_limit': {'quick': 300, 'thorough': 900}}]
 
 def pos(prog, tier):
     return h_pos.PosHarness(prog, tier, 'inline')
 def pos_blocks(prog, tier):
     return h_pos.PosHarness(prog, tier, 'blocks')
-POS_SPEC = {'make': pos, 'time_limit': {'quick': 300, 'thorough': 1200}}
-POSB_SPEC = {'make': pos_blocks, 'time_limit': {'quick': 300, 'thorough': 1200}}
+POS_SPEC = {'make': pos, 'time_limit': {'quick': 300, 'thorough': 900}}
+POSB_SPEC = {'make': pos_blocks, 'time_limit': {'quick': 300, 'thorough': 900}}
 
-PATHS_SPEC = {'make': lambda prog, tier: h_paths.PathsHarness(prog, tier), 'time_limit': {'quick': 420, 'thorough': 2400}}
+PATHS_SPEC = {'make': lambda prog, tier: h_paths.PathsHarness(prog, tier), 'time_limit': {'quick': 420, 'thorough': 1500}}
 
 TITLES_SPEC = {'make': lambda prog, tier: h_titles.TitlesHarness(prog, tier), 'time_limit': {'quick': 300, 'thorough': 600}}
 
@@ -72,12 +72,12 @@ WRITER_NOTE = ('writer: the real blocks_to_markdown_sparce / GraphBlock::to_mark
                'item numbers of top-level and quoted ordered lists are symbolic (digit count split by the solver); the reference reader is validated against the real '
                'reader on sampled / all paths and every violation is replayed through the real writer and the real reader; inline mark-up and escaping are outside')
 URLKIND_SPEC = {'make': lambda prog, tier: h_urlkind.UrlKindHarness(prog, tier), 'time_limit': {'quick': 120, 'thorough': 600}}
-RENDER_SPEC = {'make': lambda prog, tier: h_render.RenderHarness(prog, tier), 'time_limit': {'quick': 300, 'thorough': 1500}, 'tv_max': 600}
-SERVER_SPEC = {'make': lambda prog, tier: h_server.ServerHarness(prog, tier), 'time_limit': {'quick': 420, 'thorough': 1800}, 'crates': ('liwe', 'iwes')}
+RENDER_SPEC = {'make': lambda prog, tier: h_render.RenderHarness(prog, tier), 'time_limit': {'quick': 300, 'thorough': 1200}, 'tv_max': 600}
+SERVER_SPEC = {'make': lambda prog, tier: h_server.ServerHarness(prog, tier), 'time_limit': {'quick': 420, 'thorough': 1200}, 'crates': ('liwe', 'iwes')}
 ROUTER_SPEC = {'make': lambda prog, tier: h_router.RouterHarness(prog, tier), 'time_limit': {'quick': 300, 'thorough': 600}, 'crates': ('liwe', 'iwes')}
-EVENTS_SPEC = {'make': lambda prog, tier: h_events.EventsHarness(prog, tier), 'time_limit': {'quick': 300, 'thorough': 900}}
-ACTIONS_SPEC = {'make': lambda prog, tier: h_actions.ActionsHarness(prog, tier), 'time_limit': {'quick': 420, 'thorough': 2400}, 'crates': ('liwe', 'iwes')}
-ACTIONS_LISTS_SPEC = {'make': lambda prog, tier: h_actions.ActionsHarness(prog, tier, 'lists'), 'time_limit': {'quick': 420, 'thorough': 2400}, 'crates': ('liwe', 'iwes')}
+EVENTS_SPEC = {'make': lambda prog, tier: h_events.EventsHarness(prog, tier), 'time_limit': {'quick': 300, 'thorough': 600}}
+ACTIONS_SPEC = {'make': lambda prog, tier: h_actions.ActionsHarness(prog, tier), 'time_limit': {'quick': 420, 'thorough': 1500}, 'crates': ('liwe', 'iwes')}
+ACTIONS_LISTS_SPEC = {'make': lambda prog, tier: h_actions.ActionsHarness(prog, tier, 'lists'), 'time_limit': {'quick': 420, 'thorough': 1200}, 'crates': ('liwe', 'iwes')}
 ACT_NOTES = COMMON + [
     'ActionContext is a harness stub over the real Graph (same delegation as impl ActionContext for &Server); NodeIter::to_markdown is stubbed to return the '
     'GraphBlocks produced by the real Projector, so the laws read structure; the emitted text, Urls and the re-parse between two actions are outside',
